@@ -185,6 +185,7 @@ def gen_one(T, tr, m):
     return out
 
 
+print('//! scope numtraits.*')
 print('//! raw bn_numtraits_fwd_note')
 print('// numtraits_fwd.vrs is GENERATED by overlay/scripts/gen_numtraits_fwd.py -- do not edit by hand; re-run the script instead.')
 print('// num_traits forwarders (C18): each has exactly the contract of the inherent method it calls.')
